@@ -114,17 +114,26 @@ func (g *generator) genClasses() {
 	nc := 1 + g.r.Intn(5)
 	ni := g.r.Intn(3)
 	for i := 0; i < ni; i++ {
-		d := ClassDecl{Name: fmt.Sprintf("I%d", i), Interface: true}
+		name := fmt.Sprintf("I%d", i)
+		if i%2 == 1 {
+			// a user type whose name merely ends in "Throwable" is an ordinary type
+			name += "Throwable"
+		}
+		d := ClassDecl{Name: name, Interface: true}
 		if i > 0 && g.r.Intn(2) == 0 {
-			d.Implements = []string{fmt.Sprintf("I%d", g.r.Intn(i))}
+			d.Implements = []string{g.ifaces[g.r.Intn(i)]}
 		}
 		g.p.Classes = append(g.p.Classes, d)
 		g.ifaces = append(g.ifaces, d.Name)
 	}
 	for i := 0; i < nc; i++ {
-		d := ClassDecl{Name: fmt.Sprintf("E%d", i), Extends: "Exception"}
+		cname := fmt.Sprintf("E%d", i)
+		if i == 3 {
+			cname = "E3Throwable"
+		}
+		d := ClassDecl{Name: cname, Extends: "Exception"}
 		if i > 0 && g.r.Intn(4) != 0 {
-			d.Extends = fmt.Sprintf("E%d", g.r.Intn(i))
+			d.Extends = g.classes[g.r.Intn(i)]
 		}
 		for _, in := range g.ifaces {
 			if g.r.Intn(3) == 0 {
@@ -334,6 +343,8 @@ func (g *generator) lit(t Type) Expr {
 	}
 	panic("lit")
 }
+
+var mapKeys = []string{"a", "b", "k", "xy", "id", "n-1"}
 
 var words = []string{"a", "b", "ab", "ba", "x", "yz", "foo", "bar", "A", "zz top", "k-v", "q", ""}
 
@@ -824,7 +835,22 @@ func (g *generator) foreachStmt(sc *scope) []Stmt {
 		g.use("foreach.key")
 	}
 	var itv string
-	if v := g.pickVar(sc, TArr); v != nil && g.r.Intn(2) == 0 {
+	if !g.off("foreach.keyed") && g.r.Intn(3) == 0 {
+		// string-keyed source: a different iteration path in the interpreter
+		g.use("foreach.keyed")
+		ml := &MapLit{}
+		perm := g.r.Perm(len(mapKeys))
+		n := g.r.Intn(5)
+		for i := 0; i < n; i++ {
+			ml.Keys = append(ml.Keys, mapKeys[perm[i]])
+			ml.Vals = append(ml.Vals, &IntLit{int64(g.r.Intn(9))})
+		}
+		s.Src = ml
+		if s.KeyVar == "" {
+			s.KeyVar = g.fresh("q")
+		}
+		ro = []*Var{{Name: s.ValVar, T: TInt}, {Name: s.KeyVar, T: TStr}}
+	} else if v := g.pickVar(sc, TArr); v != nil && g.r.Intn(2) == 0 {
 		s.Src = v
 		itv = v.Name
 	} else {
